@@ -16,8 +16,13 @@ trees, the solvers are called, and the returned callables are compared at 30 poi
 the emitted potential trees.
 
 CLAUSES, TOLERANCES (relative to max|oracle| over the evaluation points) AND CALIBRATION
-(pinned tree, 2026-09-25, all 200 cases; see coverage.calibration in the evidence):
+(pinned tree, 2026-09-25, all 600 cases, seeds 0, 1, 2; coverage.calibration in the evidence):
   see TOL below; every entry lists measured worst sound value -> accepted.
+Grids (chosen after calibration, stated in Poisson.tla): GaussLegendre(100|120) o Becke for
+include_origin=True, GaussLegendre(200) o HandyRTransform(m=2) (first radial point ~1e-9) for
+include_origin=False, because the solver then imposes u = 0 at the FIRST radial point and a Becke
+grid (r_1 = 2e-4) gives errors of r_1 V(0) / r = 4e-3 at r = 0.05.  The ODE variable is the inverse
+of the grid's own map.
 include_origin=True is used only for spherical single-atom densities: with l > 0 content the
 library's r = 0 node (coefficient -l(l+1)/1e-20) makes scipy's solve_bvp refine to ~36 000 nodes
 with NaN residuals (50 s per channel; ValueError "didn't converge" at tol = 1e-8) - a performance /
@@ -44,19 +49,22 @@ PROP = "C16"
 NPTS = 30
 BVP_TOL = 1e-6
 # clause -> accepted relative deviation (see docstring / coverage.calibration)
-TOL = {
-    "bvp_s": 1e-3,          # measured worst 4.4e-6
-    "bvp_chan": 1e-3,       # measured worst 6.0e-6
-    "bvp_off": 1e-3,        # measured worst 4.0e-6
-    "mol": 1e-2,            # measured worst (see calibration)
-    "ivp_s": 1e-3,          # measured worst 2.0e-5
-    "lin": 20 * BVP_TOL,    # measured worst (see calibration)
-    "robust_exact": 1e-10,  # measured worst 3e-17
-    "robust_core": 1e-3,
-    "robust_smooth": 1e-2,  # measured worst 1.0e-4 (C core not resolved by the grid)
-    "robust_vs_plain": 1e-2,
-    "lap": 2e-2,            # measured worst 2e-4
+TOL = {                     # measured worst over all 600 cases, seeds 0/1/2  -> accepted   (orders of margin)
+    "bvp_s": 3e-4,          # 4.9e-6   (1.8)  centred s-Gaussian combinations, include_origin both ways
+    "bvp_chan": 3e-4,       # 9.7e-6   (1.5)  s + pure l = 1, 2 channel densities
+    "bvp_off": 5e-3,        # 1.3e-4   (1.6)  off-centre Gaussian (truncation of the l-expansion at deg // 2)
+    "mol": 4e-2,            # 1.1e-3   (1.56) 2-3 centres >= 7 bohr apart, Becke weights, degree <= 7
+    "ivp_s": 3e-3,          # 8.5e-5   (1.55) initial-value route, spherical, r >= 0.2
+    "lin": 20 * BVP_TOL,    # 5.0e-9   (3.6)  |V[a rho1 + b rho2] - a V[rho1] - b V[rho2]|
+    "robust_exact": 1e-10,  # 4.8e-16  (5.3)  rho = fitted core model: residual vanishes
+    "robust_core": 2e-3,    # 5.2e-5   (1.6)  rho = core model + smooth part, every element, split2 both ways
+    "robust_smooth": 1e-1,  # 2.9e-3   (1.54) rho smooth, H / C core model subtracted and re-added
+    "robust_vs_plain": 1.2e-1,  # 3.7e-3 (1.5)
+    "lap": 4e-2,            # 1.4e-3   (1.46) interpolate_laplacian vs symbolic Laplacian, 0.3 <= r <= 3
 }
+# Margins are 1.5 orders (not 3) on the sound side because the solvers' own accuracy on these grids is
+# 1e-5..1e-3; the defects targeted (4 pi / sign, r factor, boundary value, l(l+1), weights omitted, core
+# normalisation, dropped term) change the result by 1e-1..1 (selftest), i.e. >= 1.5 orders above.
 
 
 def fr(q):
@@ -161,9 +169,12 @@ def run_case(case, orc, table, seed):
         grid = MolGrid(np.array([1] * len(ags)), ags, BeckeWeights(order=3), store=True)
     origin = bool(case["origin"])
     radial = np.hstack(([0.0], rg.points)) if (origin and np.all(rg.points > 0.0)) else rg.points
-    nrad = int(np.sum(radial <= 1e6))          # the solver drops radial points > remove_large_pts (default 1e6)
+    rcut = float(case["rcut"]) if case["rcut"] else 1e6
+    nrad = int(np.sum(radial <= rcut))         # the solver drops radial points > remove_large_pts (default 1e6)
     ode = {"tol": BVP_TOL, "initial_guess_y": np.zeros((2, nrad))}
     kw = {"include_origin": origin, "ode_params": ode}
+    if case["rcut"]:
+        kw["remove_large_pts"] = rcut
     terms = case["terms"]
     owner = [atoms[k % len(atoms)] for k in range(len(terms))]
     P = eval_points(atoms, seed * 1000 + case["id"])
@@ -258,18 +269,18 @@ _G = {}
 def select(cases, tier, rng):
     if tier == "thorough":
         return list(cases)
-    # quick: 4 cases ~ one of each expensive family, seeded
+    # quick: one case of every kind (two of bvp_chan), seeded
     by = {}
     for c in cases:
         by.setdefault(c["kind"], []).append(c)
     kinds = ["bvp_chan", "robust_exact", "ivp_s", "lin", "bvp_s", "bvp_off", "robust_smooth", "robust_core", "lap", "mol"]
     rng.shuffle(kinds)
-    picked = [rng.choice(by["bvp_chan"]), rng.choice(by["robust_exact"])]
+    picked = [rng.choice(by["bvp_chan"]),
+              rng.choice([c for c in by["bvp_s"] if c["rcut"] and c["boundary"] == "auto"]),   # boundary value matters
+              rng.choice([c for c in by["mol"] if len(c["atoms"]) == 3])]
     for k in kinds:
-        if len(picked) >= 6:
-            break
-        if k not in ("bvp_chan", "robust_exact"):
-            picked.append(rng.choice(by[k]))
+        pool = by[k] if k != "lap" else [c for c in by[k] if any(t["l"] > 0 for t in c["terms"])]   # exercises l(l+1)
+        picked.append(rng.choice(pool))
     return picked
 
 
@@ -304,13 +315,13 @@ def run(tier: str, _cases=None) -> int:
     import multiprocessing as mp
     calib = {}
     times = {}
-    with mp.get_context("fork").Pool(16 if tier == "thorough" else 6) as pool:
+    with mp.get_context("fork").Pool(16 if tier == "thorough" else 11) as pool:
         results = list(pool.imap_unordered(_worker, [(c, rep.seed) for c in sel]))
     bycase = {c["id"]: c for c in sel}
     for cid, out, err, secs in sorted(results, key=lambda r: r[0]):
         c = bycase[cid]
         brief = {"id": cid, "kind": c["kind"], "grid": c["grid"], "atoms": c["atoms"], "terms": c["terms"],
-                 "origin": c["origin"], "ode": c["ode"], "boundary": c["boundary"], "split2": c["split2"], "elements": c["elements"],
+                 "origin": c["origin"], "ode": c["ode"], "rcut": c["rcut"], "boundary": c["boundary"], "split2": c["split2"], "elements": c["elements"],
                  "results": [(k, d) for k, d, _ in out], "exception": err, "seconds": round(secs, 2)}
         rep.evaluated(1, (cid,))
         rep.sample(brief)
@@ -333,3 +344,54 @@ def run(tier: str, _cases=None) -> int:
     rep.assume("s-type oracle: Coulomb.tla (verified in C17); channel oracles: Poisson.tla; evaluation by vf/np_eval.py "
                "(cross-checked against vf/expr_eval.py in every run)")
     return rep.finish()
+
+
+def selftest(tier: str = "quick") -> int:
+    """In-process mutants of grid.poisson / grid.robust_poisson (never touches /repo)."""
+    from ..mutants import run_mutants, src
+    P, R = "grid.poisson", "grid.robust_poisson"
+    rb = (("grid.robust_poisson", "solve_poisson_bvp"),)
+    mutants = [
+        ("bvp-rhs-sign", src(P, "return radial_components[i_spline](r) * -4 * np.pi * r", "return radial_components[i_spline](r) * 4 * np.pi * r", rb)),
+        ("bvp-rhs-2pi", src(P, "return radial_components[i_spline](r) * -4 * np.pi * r", "return radial_components[i_spline](r) * -2 * np.pi * r", rb)),
+        ("bvp-rhs-missing-r", src(P, "return radial_components[i_spline](r) * -4 * np.pi * r", "return radial_components[i_spline](r) * -4 * np.pi", rb)),
+        ("bvp-boundary-times-Y00", src(P, "        boundary = atomgrid.integrate(func_vals) / sph_o_l[0, 0]\n\n    # Check if the domain",
+                                       "        boundary = atomgrid.integrate(func_vals) * sph_o_l[0, 0]\n\n    # Check if the domain", rb)),
+        ("bvp-l(l+1)-becomes-l*l", src(P, "                    a = -l_deg * (l_deg + 1) / r**2\n                # Note that this assumes",
+                                       "                    a = -l_deg * l_deg / r**2\n                # Note that this assumes", rb)),
+        ("aim-weights-omitted", src(P, "    func_vals_atom = func_vals * molgrid.aim_weights\n    # Go through each atomic grid and construct interpolation of f*w_n.\n    interpolate_funcs = []\n    for i in range(len(molgrid.atcoords)):\n        # Get the atomic grid",
+                                    "    func_vals_atom = func_vals * 1.0\n    # Go through each atomic grid and construct interpolation of f*w_n.\n    interpolate_funcs = []\n    for i in range(len(molgrid.atcoords)):\n        # Get the atomic grid", rb)),
+        ("molecular-sum-skips-last-atom", src(P, "        for interpolate in interpolate_funcs[1:]:\n            output += interpolate(points)\n        return output\n\n    return sum_of_interpolation_functions",
+                                              "        for interpolate in interpolate_funcs[1:-1]:\n            output += interpolate(points)\n        return output\n\n    return sum_of_interpolation_functions", rb)),
+        ("bvp-division-by-r-dropped-for-l>0", src(P, "r_values = np.array([spline(r_pts) / r_pts for spline in splines])",
+                                                  "r_values = np.array([spline(r_pts) / (r_pts if k == 0 else r_pts ** 0) for k, spline in enumerate(splines)])", rb)),
+        ("ivp-initial-slope-sign", src(P, "ivp = [boundary / r_max, -boundary / r_max**2.0]", "ivp = [boundary / r_max, boundary / r_max**2.0]")),
+        ("ivp-first-derivative-coefficient", src(P, "                return 2.0 / r\n", "                return 1.0 / r\n")),
+        ("laplacian-2/r-becomes-1/r", src(P, "second_component *= 2.0 / r_pts", "second_component *= 1.0 / r_pts")),
+        ("laplacian-l(l+1)-becomes-l*l", src(P, "[[x * (x + 1)] * (2 * x + 1) for x in np.arange(0, atom_grid.l_max // 2 + 1)]",
+                                             "[[x * x] * (2 * x + 1) for x in np.arange(0, atom_grid.l_max // 2 + 1)]")),
+        ("robust-core-density-normalisation", src(R, "prefactor = c * (alpha / np.pi) ** 1.5", "prefactor = c * (alpha / np.pi) ** 1.5 * 1.01")),
+        ("robust-core-density-ignores-centre", src(R, "r_sq = np.sum((points - center) ** 2, axis=1)\n    rho = np.zeros(len(points))",
+                                                   "r_sq = np.sum((points - 0 * center) ** 2, axis=1)\n    rho = np.zeros(len(points))")),
+        ("robust-drops-core-potential", src(R, "return v_core + v_bonding + v_residual", "return v_bonding + v_residual")),
+        ("robust-drops-bonding-potential", src(R, "return v_core + v_bonding + v_residual", "return v_core + v_residual")),
+        ("robust-core-potential-last-gaussian-dropped", src(R, "centers_rep = np.tile(center, (len(coeffs_s), 1))\n            v_core += coulomb_potential(\n                points,\n                centers_s=centers_rep,\n                coeffs_s=coeffs_s,\n                alphas_s=alphas_s,",
+                                                            "centers_rep = np.tile(center, (len(coeffs_s) - 1, 1))\n            v_core += coulomb_potential(\n                points,\n                centers_s=centers_rep,\n                coeffs_s=coeffs_s[:-1],\n                alphas_s=alphas_s[:-1],")),
+    ]
+    return run_mutants(PROP, run, tier, mutants)
+
+
+def replay(path: str) -> int:
+    """Re-execute the case recorded in a replay file."""
+    with open(path) as f:
+        v = json.load(f)
+    cid = (v.get("case") or {}).get("id")
+    if cid is None:
+        return run(v.get("tier", "quick"))
+    from .. import evidence
+    old = evidence.EVID
+    evidence.EVID = tlc.GEN / f"{PROP}-replay-evidence"     # a replay must not overwrite the evidence of the tiers
+    try:
+        return run("thorough", _cases=lambda cases: [c for c in cases if c["id"] == cid])
+    finally:
+        evidence.EVID = old
